@@ -110,10 +110,17 @@ def run_write(ctx):
             kind, rows = gcommon.builder_matrix(rng)
         else:
             kind, rows = 'generated', gcommon.gen_matrix(rng, False, closed=True, max_pts=20)
+        if rng.random() < 0.15 and len(rows) >= 3:
+            # a closed loop given without the leading closed point: starts open, ends closed where it started
+            rows = [list(r) for r in rows[1:]]
+            rows[0][4] = 1.0
+            rows.append(rows[0][:4] + [0.0])
+            kind += '/starts-open'
         pts = gcommon.to_np(rows)
         snap = pts.copy()
         case = {'cfg': cfg, 'rows': rows, 'src': kind}
         ctx.seen({'stream': 'write', **case}, True)
+        ctx.count('write.source', kind)
         with core.quiet():
             G = PGMCompiler(**cfg)
             blocks = []
